@@ -77,7 +77,21 @@ RULE += (
     "K rejected calls: a variable both asked and observed, a LATER evidence item with an unknown state, virtual "
     "evidence of the wrong cardinality, an unknown variable - the extracted model decides (q_valid), pgmpy must "
     "raise and leave no trace.  L orders: node/edge/CPD/parent insertion orders, elimination orders, hash seeds, "
-    "evidence-dict order, query-list order, row and column order.  M budget: handled by tools/check.py.")
+    "evidence-dict order, query-list order, row and column order.  M budget: handled by tools/check.py.  "
+    "N equal-not-identical: every name and state handed to a query / evidence / virtual evidence is rebuilt at run "
+    "time (new str objects, int(str(x)) incl. names above 256, rebuilt tuples).  O containers: `variables` is "
+    "documented as a list - list and tuple are generated (sets, dict views, generators, ndarrays and pandas Index are "
+    "outside that contract and fail in len()/indexing/truth tests on the unchanged tree); HillClimbSearch "
+    "fixed_edges (`iterable`) as list/set/tuple/one-shot iterator.  P sizes: tree networks of 9-12 and 17 nodes, a "
+    "260-state variable, 10-node network with a 9-variable CPD; >2^24 integer codes do not occur in this property's "
+    "calls.  Q not exactly normalised tables: repr cases with column sums 1-1/128 (representation independence "
+    "against the plain representation on the same engine; which number is right depends on pruning and is C01/C05's).  "
+    "R combinations: virtual evidence x {joint=False, every elimination heuristic, explicit order, BP, map_query, "
+    "evidence on a root, tuple container}, map_query(variables=None) x virtual evidence x induced_graph.  "
+    "binop stream: sum/+/product/*/divide// /factor_product/factor_divide/FactorDict addition on partially "
+    "overlapping scopes whose second operand brings 2-3 new variables of pairwise different cardinalities, under int "
+    "(ascending, descending, >256), str, tuple and mixed names and every hash seed; every result is checked for "
+    "cardinality[i] == values.shape[i] == len(state_names[variables[i]]) == get_cardinality and for assignment().")
 TRUSTED_BASE = ["deep snapshots compare graph nodes/edges/latents, CPD scopes/cardinalities/values/state names, "
                 "factor tables, data-frame values+dtypes+index+columns, dict/list arguments; the ORDER of the list "
                 "model.cpds is recorded as an observation only (writers sort it in place; content is equal)",
@@ -144,6 +158,48 @@ def wide_net(rng):
     return {"n": n, "cards": [2] * n, "edges": edges, "cpt": cpt}
 
 
+def mid_net(rng, n):
+    """a tree-shaped network on n nodes (the parent of i is one of the three nodes before it): n-1 cliques"""
+    parents = {i: ([rng.randint(max(0, i - 3), i - 1)] if i else []) for i in range(n)}
+    cards = [rng.choice([2, 2, 2, 3]) for _ in range(n)]
+    cpt = []
+    for i in range(n):
+        ncol = 1
+        for q in parents[i]:
+            ncol *= cards[q]
+        cols = [common.rand_column(rng, cards[i], zeros=False) for _ in range(ncol)]
+        cpt.append({"parents": parents[i], "flat": [_fr(cols[c][s]) for s in range(cards[i]) for c in range(ncol)]})
+    edges = [[q, i] for i in range(n) for q in parents[i]]
+    rng.shuffle(edges)
+    return {"n": n, "cards": cards, "edges": edges, "cpt": cpt}
+
+
+def bigcard_net(rng):
+    """root with 260 states (more than a byte), binary child"""
+    k = 260
+    root = [Fraction(1, 512)] * 256 + [Fraction(1, 8)] * 4
+    rng.shuffle(root)
+    cols = [common.rand_column(rng, 2, zeros=False) for _ in range(k)]
+    return {"n": 2, "cards": [k, 2], "edges": [[0, 1]],
+            "cpt": [{"parents": [], "flat": [_fr(x) for x in root]},
+                    {"parents": [0], "flat": [_fr(cols[c][s]) for s in range(2) for c in range(k)]}]}
+
+
+def sloppy_net(rng, n):
+    """every column sums to 1 - 1/128 (inside check_model's 0.01 tolerance, not exactly normalised)"""
+    net = gen_connected_net(rng, n, p=0.7)
+    for i in range(n):
+        c = net["cpt"][i]
+        ncol = len(c["flat"]) // net["cards"][i]
+        for col in range(ncol):
+            ent = [Fraction(*c["flat"][s * ncol + col]) for s in range(net["cards"][i])]
+            j = max(range(len(ent)), key=lambda t: ent[t])
+            ent[j] -= Fraction(1, 128)
+            for s in range(net["cards"][i]):
+                c["flat"][s * ncol + col] = _fr(ent[s])
+    return net
+
+
 def connected(net):
     n = net["n"]
     adj = {i: set() for i in range(n)}
@@ -196,8 +252,10 @@ NAME_POOLS = {
 
 def gen_rep(rng, net, names=None, states=None, shuffle=True):
     n = net["n"]
-    style = names or rng.choice(["str", "str", "int", "tuple", "mixed", "substr", "kw"])
-    if style in NAME_POOLS:
+    style = names or rng.choice(["str", "str", "int", "tuple", "mixed", "substr", "kw", "bigname"])
+    if style == "bigname":
+        nm = rng.sample(range(257, 5000), n)
+    elif style in NAME_POOLS:
         nm = list(NAME_POOLS[style])
         rng.shuffle(nm)
         nm = nm[:n]
@@ -356,6 +414,18 @@ def cases(tier, seed):
         # engine-state operations and rejected calls sprinkled into the sequence (never as the final question)
         for _ in range(rng.choice([0, 1, 1, 2])):
             hist.insert(rng.randint(0, len(hist)), gen_side_op(rng, net, bp))
+        if not bp and rng.random() < 0.5:
+            # induced_graph / induced_width right after a question of each kind (map_query without variables and
+            # with virtual evidence, a question with virtual evidence, a rejected call)
+            virt = gen_virt(rng, net, set())
+            pre = rng.choice([{"op": "map_all", "Q": None, "ev": [], "virt": virt},
+                              {"op": "map_all", "Q": None, "ev": [], "virt": virt},
+                              dict(gen_q(rng, net, final=False, want_ev=True), virt=None),
+                              gen_side_op(rng, net, bp)])
+            if pre["op"] in ("query", "map") and not pre.get("bad"):
+                pre["virt"] = gen_virt(rng, net, set(pre["Q"]) | {v for v, _ in pre["ev"]})
+            pos = rng.randint(0, len(hist))
+            hist[pos:pos] = [pre, {"op": "induced", "Q": [], "ev": [], "virt": None, "oseed": rng.randint(0, 999)}]
         out.append({"kind": "history", "net": net, "rep": rep, "bp": bp, "hist": hist, "final": final,
                     "related": k % 2, "backend": "torch64" if rng.random() < 0.15 else "numpy"})
     # ---- data-based calls under renamings of the columns (string baseline vs renamed)
@@ -384,13 +454,39 @@ def cases(tier, seed):
         net = gen_connected_net(rng, n, p=rng.choice([0.5, 0.8])) if engine[:2] in ("bp", "ci") and engine != "ci_ve" else \
             gen_net(rng, n, p=rng.choice([0.0, 0.3, 0.5, 0.8]), card1=0.08)
         Q, ev = gen_question(rng, net)
+        # two optional features at once: virtual evidence with every engine variant (joint=False, heuristics,
+        # BP, map), also next to evidence on a root
+        virt = None
+        if engine not in ("ve_maxmarg", "ci_ve", "ci_bp") and rng.random() < 0.3:
+            virt = gen_virt(rng, net, set(Q) | {v for v, _ in ev})
         for hs in seeds:
             rep = gen_rep(rng, net)
-            out.append({"kind": "repr", "net": net, "rep": rep, "Q": Q, "ev": ev, "engine": engine,
-                        "backend": "numpy", "hashseed": hs})
+            out.append({"kind": "repr", "net": net, "rep": rep, "Q": Q, "ev": ev, "engine": engine, "virt": virt,
+                        "cont": rng.choice(["list", "tuple"]), "backend": "numpy", "hashseed": hs})
         rep = gen_rep(rng, net)
-        out.append({"kind": "repr", "net": net, "rep": rep, "Q": Q, "ev": ev, "engine": engine,
+        out.append({"kind": "repr", "net": net, "rep": rep, "Q": Q, "ev": ev, "engine": engine, "virt": virt,
                     "backend": rng.choice(["torch64", "torch32"]), "hashseed": rng.choice(seeds)})
+    # ---- mid-sized networks (9-12 and 17 = 1 mod 8 nodes: more than 8 cliques), a variable with > 256 states,
+    #      and tables typed with two decimals (valid for check_model, not exactly normalised)
+    for k in range(6 if tier == "quick" else 40):
+        n = [9, 12, 17, 10, 11, 9][k % 6]
+        net = mid_net(rng, n)
+        Q, ev = gen_question(rng, net)
+        out.append({"kind": "repr", "net": net, "rep": gen_rep(rng, net), "Q": Q, "ev": ev,
+                    "engine": ["ve", "bp", "ve_minfill", "bp_map", "ve_map", "bp_nojoint"][k % 6], "backend": "numpy",
+                    "virt": gen_virt(rng, net, set(Q) | {v for v, _ in ev}) if k % 2 else None,
+                    "hashseed": seeds[k % len(seeds)]})
+    for k in range(2 if tier == "quick" else 8):
+        net = bigcard_net(rng)
+        out.append({"kind": "repr", "net": net, "rep": gen_rep(rng, net, states=rng.choice(["default", "onebased"])),
+                    "Q": [[1], [0]][k % 2], "ev": [[], [[1, 1]]][k % 2], "engine": ["ve", "bp"][(k // 2) % 2],
+                    "backend": "numpy", "hashseed": seeds[k % len(seeds)]})
+    for k in range(6 if tier == "quick" else 40):
+        net = sloppy_net(rng, rng.randint(3, 5))
+        Q, ev = gen_question(rng, net)
+        out.append({"kind": "repr", "net": net, "rep": gen_rep(rng, net), "Q": Q, "ev": ev, "sloppy": True,
+                    "engine": rng.choice(["ve", "ve_minfill", "bp", "ve_map", "ve_nojoint", "bp_map"]),
+                    "backend": "numpy", "hashseed": seeds[k % len(seeds)]})
     # ---- CPDs that disagree on the labelling of a shared variable's axis, under several CPD insertion orders
     ns = 8 if tier == "quick" else 50
     for variant in ("same", "reordered", "different_set"):
@@ -418,6 +514,12 @@ def cases(tier, seed):
                         "rep": gen_rep(rng, net, states=rng.choice(["str", "default", "permint"])),
                         "qseed": rng.randint(0, 10**9),
                         "backend": "torch64" if (r % 2 and call not in ("sample", "simulate", "ci_query")) else "numpy"})
+    # ---- binary factor operations on partially overlapping scopes (2-3 new variables of unequal cardinalities),
+    #      every hash seed
+    for k in range(24 if tier == "quick" else 240):
+        c = gen_binop(rng)
+        c["hashseed"] = seeds[k % len(seeds)]
+        out.append(c)
     # ---- BeliefPropagationWithMessagePassing on tree-shaped factor graphs (factors over up to 4 variables)
     for k in range(12 if tier == "quick" else 120):
         mode = ["equal", "unequal"][k % 2]
@@ -474,7 +576,8 @@ def gen_q(rng, net, final, want_ev=False):
     virt = None
     if op != "maxmarg" and rng.random() < (0.2 if final else 0.4):
         virt = gen_virt(rng, net, set(Q) | {v for v, _ in ev})
-    return {"op": op, "Q": Q, "ev": ev, "virt": virt, "evshuffle": rng.randint(1, 999) if len(ev) > 1 else 0}
+    return {"op": op, "Q": Q, "ev": ev, "virt": virt, "evshuffle": rng.randint(1, 999) if len(ev) > 1 else 0,
+            "cont": rng.choice(["list", "tuple"])}
 
 
 def gen_side_op(rng, net, bp):
@@ -613,8 +716,36 @@ def build(net, rep, with_state_names=True, sn_override=None, cpd_order=None, che
     return b
 
 
+def fresh_obj(x):
+    """an object EQUAL to x but not the object stored in the model (names / states rebuilt at run time)"""
+    if isinstance(x, bool) or x is None:
+        return x
+    if isinstance(x, str):
+        return (x + "#")[:-1]
+    if isinstance(x, int):
+        return int(str(x))              # a new object for ints above 256
+    if isinstance(x, float):
+        return float(repr(x))
+    if isinstance(x, tuple):
+        return tuple(fresh_obj(y) for y in x)
+    return x
+
+
+def as_container(names, how):
+    """the documented `list` of variables, or another container that pgmpy accepts for it"""
+    if names is None or how in (None, "list"):
+        return names
+    if how == "tuple":
+        return tuple(names)
+    if how == "set":
+        return set(names)
+    if how == "keys":
+        return {k: None for k in names}.keys()
+    return names
+
+
 def ev_dict(b, ev):
-    return {b.names[v]: b.labels[v][s] for v, s in ev}
+    return {fresh_obj(b.names[v]): fresh_obj(b.labels[v][s]) for v, s in ev}
 
 
 def virt_cpds(b, net, virt):
@@ -625,7 +756,8 @@ def virt_cpds(b, net, virt):
         vals = [0.0] * net["cards"][v]
         for c in range(net["cards"][v]):
             vals[b.order[v].index(c)] = float(Fraction(e[c][0], e[c][1]))
-        out.append(TabularCPD(b.names[v], net["cards"][v], [[x] for x in vals], state_names={b.names[v]: b.snames[v]}))
+        out.append(TabularCPD(fresh_obj(b.names[v]), net["cards"][v], [[x] for x in vals],
+                              state_names={fresh_obj(b.names[v]): [fresh_obj(x) for x in b.snames[v]]}))
     return out
 
 
@@ -896,6 +1028,8 @@ def run_case(case, drv):
             return run_resindep(case, drv)
         if k == "bpmp":
             return run_bpmp(case, drv)
+        if k == "binop":
+            return run_binop(case, drv)
     finally:
         if not backend_clean():
             from pgmpy import config
@@ -904,11 +1038,11 @@ def run_case(case, drv):
 
 
 # ------------------------------------------------------------------- representation independence
-def ask_pgmpy(b, net, engine, Q, ev, virt=None):
+def ask_pgmpy(b, net, engine, Q, ev, virt=None, cont=None):
     """-> ('table', {canon tuple: p}) | ('map', {var index: canon state}) | ('scalar', x) | ('tables', [...])"""
     from pgmpy.inference import VariableElimination, BeliefPropagation
 
-    names = [b.names[q] for q in Q]
+    names = as_container([fresh_obj(b.names[q]) for q in Q], cont)
     evd = ev_dict(b, ev)
     kw = {"show_progress": False}
     if virt:
@@ -981,23 +1115,44 @@ def run_repr(case, drv):
             "states=" + rep["sstyle"], "n=%d" % net["n"]]
     key = common.canon_key(["repr", net, Q, ev, engine, rep, case["backend"]])
     nontriv = bool(net["edges"]) and (len(Q) + len(ev) < net["n"] or bool(ev))
-    ref = ref_posterior(drv, net, Q, ev, random.Random(case.get("hashseed", 0)))
+    virt, cont, sloppy = case.get("virt"), case.get("cont"), case.get("sloppy")
+    tags += (["virt"] if virt else []) + (["cont=" + cont] if cont else []) + (["sloppy"] if sloppy else [])
+    key = common.canon_key(["repr", net, Q, ev, engine, rep, case["backend"], virt, cont, sloppy])
+    if virt:
+        rest = [v for v in range(net["n"]) if v not in Q and v not in [x for x, _ in ev]]
+        vf = [[[v], [Fraction(a, c) for a, c in e]] for v, e in virt]
+        tab = drv.call("c16_post", [net["cards"], model_factors(net) + vf, [list(x) for x in ev], rest, Q])
+        ref = {idx: common.frac(tab[k]) for k, idx in enumerate(itertools.product(*[range(net["cards"][q]) for q in Q]))}
+    else:
+        ref = ref_posterior(drv, net, Q, ev, random.Random(case.get("hashseed", 0)))
     if any(d == 0 for d in [sum(ref.values())]) or any(v != v for v in map(float, ref.values())):
         return ok(False, key, tags + ["zero-evidence"])
     with Backend(case["backend"]):
         b = build(net, rep)
         w = Watch(model=b.model)
         def plain():
-            return ask_pgmpy(build(net, plain_rep(net)), net, engine, Q, ev)
+            return ask_pgmpy(build(net, plain_rep(net)), net, engine, Q, ev, virt)
 
         try:
-            ans = ask_pgmpy(b, net, engine, Q, ev)
+            ans = ask_pgmpy(b, net, engine, Q, ev, virt, cont)
         except Exception as e:  # zero-probability evidence etc. are excluded above
             if nonstring_diag(e, rep, plain):
                 return bad("nonstring-names", {"engine": engine, "exc": repr(e)[:200], "names": rep["nstyle"]},
                            finding=NONSTR_KEY, key=key, tags=tags + ["diag:nonstring-" + engine])
             return bad("impl-exception", {"engine": engine, "exc": repr(e)[:300]}, key=key, tags=tags)
-        if engine == "ve_maxmarg":
+        if sloppy:
+            # CPDs typed with two decimals (column sums within check_model's 0.01 but not 1): which number is
+            # "the" posterior depends on what an engine prunes, so only representation independence is required:
+            # the plain string representation of the same tables gives the same answer on the same engine
+            pa = plain()
+            same = (pa[0] == ans[0]) and (
+                (pa[0] == "table" and cmp_tables(ans[1], pa[1], 1e-9) is None)
+                or (pa[0] == "marginals" and all(cmp_tables(ans[1][q], pa[1][q], 1e-9) is None for q in Q))
+                or (pa[0] in ("map", "scalar") and (ans[1] == pa[1] or pa[0] == "scalar" and rel_close(ans[1], pa[1], 1e-9))))
+            if not same:
+                return bad("representation-dependent", {"engine": engine, "what": "not exactly normalised tables",
+                                                        "got": str(ans)[:300], "plain": str(pa)[:300]}, key=key, tags=tags)
+        elif engine == "ve_maxmarg":
             # metamorphic: the plain string representation of the same network must give the same number
             want = plain()[1]
             if not common.approx(ans[1], want, tol):
@@ -1166,8 +1321,9 @@ def do_question(eng, b, net, q, cache=None):
     def nm(v):
         return b.names[v] if v < nb else "no_such_node"
 
-    names = None if q["Q"] is None else [nm(v) for v in q["Q"]]
-    evd = {b.names[v]: (b.labels[v][s] if s < net["cards"][v] else "no_such_state") for v, s in q["ev"]}
+    names = None if q["Q"] is None else as_container([fresh_obj(nm(v)) for v in q["Q"]], q.get("cont"))
+    evd = {fresh_obj(b.names[v]): (fresh_obj(b.labels[v][s]) if s < net["cards"][v] else "no_such_state")
+           for v, s in q["ev"]}
     if q.get("evshuffle"):
         items = list(evd.items())
         random.Random(q["evshuffle"]).shuffle(items)
@@ -1199,7 +1355,13 @@ def do_question(eng, b, net, q, cache=None):
     if q["op"] == "induced":
         order = [b.names[v] for v in range(nb)]
         random.Random(q["oseed"]).shuffle(order)
-        return ("scalar", float(eng.induced_graph(order).number_of_edges()))
+        g = eng.induced_graph(order)
+        try:
+            width = int(eng.induced_width(order))
+        except ValueError as e:          # an edgeless induced graph: max() of an empty sequence (not a C16 matter)
+            width = "ValueError"
+        return ("induced", sorted(repr(x) for x in g.nodes()),
+                sorted(repr(tuple(sorted((repr(u), repr(v))))) for u, v in g.edges()), width)
     if q["op"] in ("calibrate", "max_calibrate"):
         getattr(eng, q["op"])()
         return ("scalar", float(len(eng.get_clique_beliefs())))
@@ -1332,7 +1494,18 @@ def _run_history(case, drv):
         where = {"step": i, "of": len(seq), "q": q}
         if q["op"] in SIDE_OPS:
             try:
-                do_question(eng, b, net, q)
+                r_h = do_question(eng, b, net, q)
+                if q["op"] == "induced":
+                    # the induced graph (nodes, fill-in edges, width) of an explicit elimination order, after
+                    # whatever was asked before, is the fresh engine's
+                    b2 = build(net, rep)
+                    r_f = do_question(Eng(b2.model), b2, net, q)
+                    if r_h != r_f:
+                        return bad("history-dependent-answer",
+                                   dict(where, what="induced_graph / induced_width", with_history=str(r_h)[:400],
+                                        fresh=str(r_f)[:400], asked_before=[x["op"] + ("+virt" if x["virt"] else "") +
+                                                                            ("(rejected)" if x.get("bad") else "")
+                                                                            for x in seq[:i]]), key=key, tags=tags)
             except Exception as e:
                 return bad("impl-exception", dict(where, exc=repr(e)[:300]), key=key, tags=tags)
             if sorted(repr(x) for x in eng.model.nodes()) != nodes0:
@@ -1663,7 +1836,9 @@ def run_purity(case, drv):
                 hc = HillClimbSearch(df)
                 r1 = hc.estimate(scoring_method="k2", start_dag=start, fixed_edges=fixed, black_list=black,
                                  max_indegree=2, max_iter=20, show_progress=False)
-                r2 = hc.estimate(scoring_method="k2", start_dag=start, fixed_edges=fixed, black_list=black,
+                # `fixed_edges: iterable` - the same edges as a set, a tuple or a one-shot iterator
+                fx2 = rng.choice([set, tuple, iter, list])(list(fixed))
+                r2 = hc.estimate(scoring_method="k2", start_dag=start, fixed_edges=fx2, black_list=black,
                                  max_indegree=2, max_iter=20, show_progress=False)
                 if sorted(map(repr, r1.edges())) != sorted(map(repr, r2.edges())):
                     return bad("not-repeatable", {"call": call, "first": sorted(map(repr, r1.edges())),
@@ -2657,3 +2832,185 @@ def run_bpmp(case, drv):
             return bad("mutated-argument", {"engine": "BeliefPropagationWithMessagePassing", "changed": ["factor graph"]},
                        key=key, tags=tags)
     return ok(maxscope >= 3, key, tags)
+
+
+# ------------------------------------------------------------------- binary factor operations, overlapping scopes
+BINOP_STYLES = ["int", "int_desc", "str", "tuple", "mixed", "bigint"]
+
+
+def gen_binop(rng):
+    """two factors with partially overlapping scopes; the second brings 2-3 NEW variables of unequal
+    cardinalities, listed in an arbitrary order"""
+    nnew = rng.choice([2, 2, 3])
+    nf = rng.randint(1, 3)
+    nshared = rng.randint(0, min(2, nf))
+    nv = nf + nnew
+    cards = [rng.choice([2, 3, 4]) for _ in range(nf)]
+    new_cards = rng.sample([2, 3, 4, 5], nnew)          # pairwise different
+    cards = cards + new_cards
+    fscope = list(range(nf))
+    rng.shuffle(fscope)
+    gscope = rng.sample(range(nf), nshared) + list(range(nf, nv))
+    rng.shuffle(gscope)
+
+    def table(scope):
+        size = 1
+        for v in scope:
+            size *= cards[v]
+        return [rng.randint(1, 9) for _ in range(size)]
+
+    style = rng.choice(BINOP_STYLES)
+    if style == "int":
+        names = rng.sample(range(0, 12), nv)
+    elif style == "int_desc":                            # listing order opposite to the value order of a set of ints
+        names = sorted(rng.sample(range(0, 30), nv), reverse=True)
+    elif style == "bigint":
+        names = rng.sample(range(300, 5000), nv)
+    elif style == "str":
+        names = rng.sample(["a", "b", "c", "x1", "x10", "G", "G2", "zeta", "node", "k", "w w", "Q"], nv)
+    elif style == "tuple":
+        names = [["t", i] for i in rng.sample(range(20), nv)]
+    else:
+        names = rng.sample([0, "b", 2, "d", ["t", 1], "zz", 7, 3.5], nv)
+    return {"kind": "binop", "cards": cards, "fscope": fscope, "gscope": gscope, "fvals": table(fscope),
+            "gvals": table(gscope), "names": names, "style": style, "states": rng.choice(["default", "str", "permint"]),
+            "backend": rng.choice(["numpy", "numpy", "torch64"]), "sseed": rng.randint(0, 10**9)}
+
+
+def factor_consistency(phi):
+    """scope / cardinality / values shape / state names / assignment() of ONE factor agree with each other"""
+    vals = np_values(phi.values)
+    vs = list(phi.variables)
+    if not (len(vs) == vals.ndim == len(phi.cardinality)):
+        return "lengths: %d variables, %d axes, %d cardinalities" % (len(vs), vals.ndim, len(phi.cardinality))
+    if list(phi.scope()) != vs:
+        return "scope() != variables"
+    gc = phi.get_cardinality(vs)
+    for i, v in enumerate(vs):
+        trio = (int(phi.cardinality[i]), int(vals.shape[i]), len(phi.state_names[v]), int(gc[v]))
+        if len(set(trio)) != 1:
+            return "axis %d (%r): cardinality %d, values.shape %d, %d state names, get_cardinality %d" % ((i, v) + trio)
+        if [phi.name_to_no[v][s] for s in phi.state_names[v]] != list(range(trio[0])):
+            return "name_to_no of %r does not number its state names 0..k-1" % (v,)
+    import numpy as np
+    size = int(np.prod(vals.shape)) if vals.ndim else 1
+    try:
+        asg = phi.assignment(list(range(size)))
+    except Exception as e:
+        return "assignment() raises %r" % (e,)
+    for k in range(size):
+        idx = np.unravel_index(k, vals.shape) if vals.ndim else ()
+        want = [(v, phi.state_names[v][int(idx[i])]) for i, v in enumerate(vs)]
+        if list(asg[k]) != want:
+            return "assignment(%d) = %r, the table's axes say %r" % (k, asg[k], want)
+    return None
+
+
+def run_binop(case, drv):
+    import numpy as np
+
+    cards, fs, gs = case["cards"], case["fscope"], case["gscope"]
+    tags = ["binop", "style=" + case["style"], "backend=" + case["backend"], "new=%d" % len(set(gs) - set(fs)),
+            "shared=%d" % len(set(gs) & set(fs))]
+    key = common.canon_key(["binop", case])
+    rng = random.Random(case["sseed"])
+    names = [_nm(x) for x in case["names"]]
+    if case["style"] == "bigint":
+        names = [int(str(x)) for x in names]
+    labels = []
+    for v, c in enumerate(cards):
+        if case["states"] == "str":
+            labels.append(["s%d_%d" % (v, k) for k in range(c)])
+        elif case["states"] == "permint":
+            lab = list(range(c))
+            rng.shuffle(lab)
+            labels.append(lab)
+        else:
+            labels.append(list(range(c)))
+
+    def exact(scope, flat):
+        return {idx: Fraction(flat[k]) for k, idx in enumerate(itertools.product(*[range(cards[v]) for v in scope]))}
+
+    F, G = exact(fs, case["fvals"]), exact(gs, case["gvals"])
+    union = fs + [v for v in gs if v not in fs]
+
+    def combine(op, A, sa, B, sb, scope):
+        out = {}
+        for full in itertools.product(*[range(cards[v]) for v in scope]):
+            a = dict(zip(scope, full))
+            out[full] = op(A[tuple(a[v] for v in sa)], B[tuple(a[v] for v in sb)])
+        return out
+
+    want_sum = combine(lambda x, y: x + y, F, fs, G, gs, union)
+    want_prod = combine(lambda x, y: x * y, F, fs, G, gs, union)
+
+    def canon(phi, scope):
+        idx_of = {names[v]: v for v in range(len(cards))}
+        vals = np_values(phi.values)
+        out = {}
+        for idx in itertools.product(*[range(x) for x in vals.shape]):
+            a = {idx_of[v]: labels[idx_of[v]].index(phi.state_names[v][idx[ax]]) for ax, v in enumerate(phi.variables)}
+            out[tuple(a[v] for v in scope)] = float(vals[idx])
+        return out
+
+    with Backend(case["backend"]):
+        from pgmpy.factors.discrete import DiscreteFactor
+        from pgmpy.factors import factor_product, factor_divide
+        from pgmpy.factors.FactorDict import FactorDict
+
+        def mk(scope, flat):
+            return DiscreteFactor([names[v] for v in scope], [cards[v] for v in scope], [float(x) for x in flat],
+                                  state_names={names[v]: list(labels[v]) for v in scope})
+
+        f, g = mk(fs, case["fvals"]), mk(gs, case["gvals"])
+        w = Watch(f=f, g=g)
+        results = []
+        try:
+            results.append(("f.sum(g, inplace=False)", f.sum(g, inplace=False), want_sum))
+            results.append(("f + g", f + g, want_sum))
+            results.append(("g + f", g + f, want_sum))
+            results.append(("g.sum(f, inplace=False)", g.sum(f, inplace=False), want_sum))
+            fd = FactorDict({"k": f}) + FactorDict({"k": g})
+            results.append(("FactorDict + FactorDict", fd["k"], want_sum))
+            c1 = f.copy()
+            c1.sum(g, inplace=True)
+            results.append(("copy.sum(g, inplace=True)", c1, want_sum))
+            results.append(("f.product(g, inplace=False)", f.product(g, inplace=False), want_prod))
+            results.append(("f * g", f * g, want_prod))
+            results.append(("g * f", g * f, want_prod))
+            results.append(("factor_product(f, g)", factor_product(f, g), want_prod))
+            c2 = g.copy()
+            c2.product(f, inplace=True)
+            results.append(("copy.product(f, inplace=True)", c2, want_prod))
+            h = f.product(g, inplace=False)
+            hw = Watch(h=h)
+            results.append(("(f*g).divide(g, inplace=False)", h.divide(g, inplace=False), {k_: v_ for k_, v_ in
+                            combine(lambda x, y: x, F, fs, G, gs, union).items()}))
+            results.append(("(f*g) / f", h / f, combine(lambda x, y: y, F, fs, G, gs, union)))
+            results.append(("factor_divide(f*g, g)", factor_divide(h, g), combine(lambda x, y: x, F, fs, G, gs, union)))
+            if hw.diff():
+                return bad("mutated-argument", {"op": "divide", "changed": ["dividend"]}, key=key, tags=tags)
+        except Exception as e:
+            import traceback
+            return bad("impl-exception", {"op": "binary factor operation", "exc": repr(e)[:300],
+                                          "tb": traceback.format_exc()[-700:]}, key=key, tags=tags)
+        inputs = {"f": {"variables": [repr(names[v]) for v in fs], "card": [cards[v] for v in fs]},
+                  "g": {"variables": [repr(names[v]) for v in gs], "card": [cards[v] for v in gs]}}
+        for label, res, want in results:
+            e = factor_consistency(res)
+            if e:
+                return bad("inconsistent-result", dict(inputs, op=label, err=e,
+                                                       result_variables=[repr(v) for v in res.variables],
+                                                       result_cardinality=[int(c) for c in res.cardinality],
+                                                       result_shape=list(np_values(res.values).shape)),
+                           key=key, tags=tags)
+            if set(res.variables) != {names[v] for v in union}:
+                return bad("impl!=spec", dict(inputs, op=label, err="scope %r" % (res.variables,)), key=key, tags=tags)
+            e = cmp_tables(canon(res, union), want, TOL)
+            if e:
+                return bad("impl!=spec", dict(inputs, op=label, err=e), key=key, tags=tags)
+        if w.diff():
+            return bad("mutated-argument", dict(inputs, changed=w.diff()), key=key, tags=tags)
+    if not backend_clean():
+        return bad("backend-not-restored", {}, key=key, tags=tags)
+    return ok(True, key, tags)
